@@ -541,6 +541,38 @@ def real_pool(rep: Report, mods, t: str, rng: random.Random, stats: dict):
 
 
 # ------------------------------------------------------------------------------------------ part (d): hash seeds
+# Texts in which every collection a rule might put into a set holds several distinct STRINGS / NAMES
+# (the iteration order of such a set depends on the hash seed; small integers hash to themselves).
+STRINGY = [
+    'COLOURS = {"red", "green", "blue", "red", "amber", "green"}\nprint(sorted(COLOURS))\n',
+    'TABLE = {"alpha": 1, "beta": 2, "alpha": 3, "gamma": 4, "beta": 5}\nprint(TABLE)\n',
+    'import os, sys, re, json, math, heapq, shlex, glob\nprint(os.sep, sys.maxsize, re.I, json.dumps, math.pi, heapq.heapify, shlex.quote, glob.glob)\n',
+    'from os.path import join, exists, basename, dirname, abspath\nfrom os.path import join, splitext\n'
+    'print(join, exists, basename, dirname, abspath, splitext)\n',
+    'def compute(alpha, beta):\n    unusedOne = alpha\n    unusedTwo = beta\n    unusedThree = alpha + beta\n    camelCase = alpha * beta\n'
+    '    otherName = camelCase + 1\n    return otherName\n\n\nprint(compute(1, 2))\n',
+    'def first(v):\n    return v * 2 + 1\n\n\ndef second(w):\n    return w * 2 + 1\n\n\ndef third(u):\n    return u * 2 + 1\n\n\n'
+    'print(first(1), second(2), third(3))\n',
+    'counter = 0\ntotal = 0\nlimit = 3\n\n\ndef bump():\n    global counter, total, limit\n    counter += 1\n    total += counter\n'
+    '    return limit\n\n\nprint(bump(), counter, total)\n',
+    'class Shape:\n    def area(self):\n        return 1\n\n    def perimeter(self):\n        return 2\n\n    def name(self):\n        return "shape"\n\n\n'
+    'print(Shape().area(), Shape.perimeter, Shape.name)\n',
+    'def pick(kind):\n    if kind in ("apple", "pear", "plum", "apple"):\n        return "fruit"\n    if kind == "kale" or kind == "leek" or kind == "kale":\n'
+    '        return "veg"\n    return None\n\n\nprint(pick("pear"), pick("leek"))\n',
+    'words = ["delta", "alpha", "charlie", "bravo"]\nseen = set()\nfor word in words:\n    seen.add(word)\nlookup = {}\nfor word in words:\n'
+    '    lookup[word] = len(word)\nprint(sorted(seen), lookup)\n',
+    'import numpy as np\n\n\ndef mm(a, b):\n    return [[sum(a[i][k] * b[k][j] for k in range(len(b))) for j in range(len(b[0]))] for i in range(len(a))]\n\n\n'
+    'print(mm([[1, 2]], [[3], [4]]), np.zeros(1))\n',
+    '__all__ = ["gamma", "alpha", "beta"]\n\n\ndef alpha():\n    return 1\n\n\ndef beta():\n    return 2\n\n\ndef gamma():\n    return 3\n\n\n'
+    'def _delta():\n    return 4\n',
+    'def report(items):\n    out = []\n    for name, size, colour in items:\n        if name and size and colour:\n            out.append(f"{name}:{size}:{colour}")\n'
+    '    return out\n\n\nprint(report([("a", 1, "red"), ("b", 2, "blue")]))\n',
+    'STATES = frozenset(["open", "closed", "open", "pending"])\nLEVELS = set(["low", "high", "low"])\nprint(sorted(STATES), sorted(LEVELS))\n',
+    'def classify(x):\n    if x == "a":\n        return 1\n    elif x == "b":\n        return 1\n    elif x == "c":\n        return 2\n    elif x == "d":\n        return 2\n'
+    '    else:\n        return 3\n\n\nprint([classify(c) for c in "abcde"])\n',
+]
+
+
 def hash_seeds(rep: Report, mods, t: str, rng: random.Random, stats: dict):
     import pipeline
     items = []
@@ -553,6 +585,14 @@ def hash_seeds(rep: Report, mods, t: str, rng: random.Random, stats: dict):
     std = list(corpus.stdlib_files(max_lines=200 if t == "quick" else 400))
     for origin, text in rng.sample(std, min(40 if t == "quick" else 400, len(std))):
         items.append([origin, text, {"safe": True}, None])
+    for i, text in enumerate(STRINGY):
+        items.append([f"stringy:{i}", text, {}, None])
+        items.append([f"stringy-safe:{i}", text, {"safe": True}, None])
+    import shapes
+    for case in shapes.shape_cases(rep, t):
+        if case["nl"] and case["pos"] == "only" and not case["opt"][0]:
+            src, opts = shapes.render_case(case)
+            items.append([f"shape:{case['c']}", src, {k: (sorted(v) if isinstance(v, (set, frozenset)) else v) for k, v in opts.items()}, None])
     always = dict(std).get("stdlib/html/__init__.py")
     if always:
         items.append(["stdlib/html/__init__.py", always, {"safe": True}, None])
